@@ -1,13 +1,37 @@
 #!/bin/sh
 # Build everything from files on disk only (offline): the Coq development and the Rust harness.
+# Work-in-progress files of properties that are not claimed yet must not break the setup: the whole tree is built
+# with `make -k` (best effort), then the targets of every CLAIMED property (props/Cxx.json "claimed": true) are
+# built strictly; each ./check rebuilds what it needs anyway.
 set -e
 cd "$(dirname "$0")"
 export CARGO_NET_OFFLINE=true
 mkdir -p .locks evidence replays .logs
 # Gen/ is regenerated from /repo before the Coq build so that generated obligations are current
 for g in tools/gen/*.py; do [ -f "$g" ] && python3 "$g" --repo "$(cd .. && pwd)/repo" --out coq/Gen || true; done
-(cd coq && rm -f _CoqProject Makefile.coq Makefile.coq.conf && timeout 3000 ./mk.sh)
+(cd coq && rm -f _CoqProject Makefile.coq Makefile.coq.conf && (timeout 3000 ./mk.sh -k >/dev/null 2>&1 || true))
+CLAIMED_VO=$(python3 - <<'E'
+import json,glob,re
+t=[]
+for p in sorted(glob.glob("props/C*.json")):
+    m=json.load(open(p))
+    if m.get("claimed"):
+        t += [re.sub(r"\.v$",".vo",f) for f in m.get("gen_files",[])+[m["props_file"]]] + m.get("model_vo",[])
+print(" ".join(sorted(set(t))))
+E
+)
+CLAIMED_BINS=$(python3 - <<'E'
+import json,glob
+b=[]
+for p in sorted(glob.glob("props/C*.json")):
+    m=json.load(open(p))
+    if m.get("claimed") and m.get("harness_bin"): b.append("--bin "+m["harness_bin"])
+print(" ".join(sorted(set(b))))
+E
+)
+[ -z "$CLAIMED_VO" ] || (cd coq && timeout 3000 ./mk.sh $CLAIMED_VO)
 [ -f harness/Cargo.lock ] || cp ../repo/Cargo.lock harness/Cargo.lock
-(cd harness && RUSTFLAGS="--cfg rip_verif" timeout 3000 cargo build --offline --bins)
+(cd harness && RUSTFLAGS="--cfg rip_verif" timeout 3000 cargo build --offline --bins) || \
+  (cd harness && RUSTFLAGS="--cfg rip_verif" timeout 3000 cargo build --offline $CLAIMED_BINS)
 (RUSTFLAGS="--cfg rip_verif" CARGO_TARGET_DIR="$(pwd)/harness/target-cli" timeout 3000 cargo build --offline --manifest-path ../repo/Cargo.toml -p rip-cli --bin rip)
 echo "setup ok"
